@@ -48,6 +48,8 @@ def r_ground(f, args):
 def r_prob(p):
     num, den = p
     fr = Fraction(num, den)
+    if fr < 0:
+        return "-" + r_prob([-num, den])
     if fr.denominator in (1, 2, 4, 5, 8, 10, 16, 20, 25, 40, 50, 100, 1000):
         s = "%.6f" % float(fr)
         s = s.rstrip("0")
@@ -69,9 +71,9 @@ def statements(p, ev_style=0):
     """Return dict kind -> list of statement strings."""
     out = {"facts": [], "ads": [], "rules": [], "queries": [], "evidence": []}
     for f in p["facts"]:
-        out["facts"].append("%s::%s." % (r_prob(f["p"]), r_atom(f["atom"])))
+        out["facts"].append("%s::%s." % (f.get("ptext") or r_prob(f["p"]), r_atom(f["atom"])))
     for ad in p["ads"]:
-        hs = "; ".join("%s::%s" % (r_prob(h["p"]), r_atom(h["atom"])) for h in ad["heads"])
+        hs = "; ".join("%s::%s" % (h.get("ptext") or r_prob(h["p"]), r_atom(h["atom"])) for h in ad["heads"])
         out["ads"].append(hs + (" :- " + r_body(ad["body"]) if ad["body"] else "") + ".")
     for r in p["rules"]:
         out["rules"].append(r_atom(r["head"]) + (" :- " + r_body(r["body"]) if r["body"] else "") + ".")
